@@ -248,10 +248,20 @@ class Runner:
     def __init__(self, ctx):
         self.ctx = ctx
         self.traces = []          # (record, case, sig, note)
+        self.pending = {}         # (operation, list length) -> judgement of an earlier result, to be repeated after a later call
         self.n = 0
 
     def fail(self, clause, detail, case, sig):
         self.ctx.fail(clause, detail, case, sig)
+
+    def rejudge_later(self, key, case, judge):
+        """Aliasing of returned objects: the judgement of the EARLIER result for the same operation and list length is
+        repeated now, after a later call; then this call's judgement is parked for the next one."""
+        prev = self.pending.get(key)
+        if prev is not None:
+            pcase, pjudge = prev
+            pjudge({"kind": "pair", "first": pcase, "second": case}, " (earlier result judged again after a later call)")
+        self.pending[key] = (case, judge)
 
     def compare_rows(self, got, exp, fields, clause_of, case, sig, what):
         if isinstance(got, str):
@@ -284,7 +294,8 @@ class Runner:
         self.n += 1
         ctx.ran(case)
         if op in ("export", "reimport"):
-            df = motl_df_from_parts(cs["parts"], rng)
+            # the list handed to cryoCAT carries default, permuted or gapped row labels; results are positional
+            df = motlutil.vary_index(motl_df_from_parts(cs["parts"], rng), variant // 3)
             rdf, err = core.call_guarded(api_export, df, v, px, cs["fmt"], variant)
             if err is not None:
                 if op == "export":
@@ -296,11 +307,16 @@ class Runner:
 
                 def clause_of(f):
                     return "C03_ExportPose" if f in ("coord", "origin", "M") else "C03_HalfSets" if f == "subset" else "C03_Identity"
-                self.compare_rows(project_relion(rdf, v, named), case["rel"], fields, clause_of, case, sig, "exported table")
+
+                def judge(fcase, suffix, rdf=rdf, sig=sig, fields=fields, clause_of=clause_of, named=named, rel=case["rel"]):
+                    s2 = dict(sig, aliasing=True) if suffix else sig
+                    self.compare_rows(project_relion(rdf, v, named), rel, fields, clause_of, fcase, s2, "exported table" + suffix)
+                judge(case, "")
+                self.rejudge_later(("export", len(cs["parts"])), case, judge)
                 if do_file:
                     self.file_case(case, df, v, px, rng, variant, sig)
                 return
-            back, err = core.call_guarded(api_import, rdf, v, px, variant // 3)
+            back, err = core.call_guarded(api_import, motlutil.vary_index(rdf, variant // 2), v, px, variant // 3)
             if err is not None:
                 self.fail("call_raises", "import of the exported table: %s" % err, case, sig)
                 return
@@ -321,7 +337,8 @@ class Runner:
                 independent_relion_file(path, rdf, v, px, rng, optics=not with_px)
                 back, err = core.call_guarded(api_load, path, v, px, 1 if v == 30 or with_px else variant // 4)
             else:
-                back, err = core.call_guarded(api_import, rdf, v, px, variant // 4, explicit_px=not (with_px and v < 40 and variant % 8 < 4))
+                back, err = core.call_guarded(api_import, motlutil.vary_index(rdf, variant // 8), v, px, variant // 4,
+                                              explicit_px=not (with_px and v < 40 and variant % 8 < 4))
             if err is not None:
                 self.fail("call_raises", "import: %s" % err, case, sig)
                 return
@@ -329,7 +346,13 @@ class Runner:
 
             def clause_of(f):
                 return "C03_ImportPose" if f in ("x", "s", "R") else "C03_Identity"
-            ok = self.compare_rows(got, case["back"], ["x", "s", "R", "tomo", "cls", "geom3"], clause_of, case, sig, "imported list")
+
+            def judge(fcase, suffix, back=back, sig=sig, exp=case["back"], clause_of=clause_of):
+                s2 = dict(sig, aliasing=True) if suffix else sig
+                return self.compare_rows(project_motl(back)[0], exp, ["x", "s", "R", "tomo", "cls", "geom3"], clause_of, fcase, s2,
+                                         "imported list" + suffix)
+            ok = judge(case, "")
+            self.rejudge_later(("import", len(cs["rin"])), case, judge)
             if ok and invalid_projection([], ids):
                 self.fail("C03_HalfSets", "imported list: %s" % invalid_projection([], ids), case, sig)
             elif ok:
@@ -519,7 +542,10 @@ def gen_float_case(rng, idx, n):
 
 
 def _res(x):
-    return int(min(2e6, round(float(x) * 1e7)))
+    x = float(x)
+    if not math.isfinite(x):
+        return 2000000          # a NaN / infinite residual is as bad as it gets
+    return int(min(2e6, round(x * 1e7)))
 
 
 def run_float(ctx, cases, name="resid"):
@@ -535,7 +561,7 @@ def run_float(ctx, cases, name="resid"):
             cols["shift_x"][i], cols["shift_y"][i], cols["shift_z"][i] = p["shift"]
             cols["phi"][i], cols["theta"][i], cols["psi"][i] = p["ang"]
             cols["tomo_id"][i], cols["subtomo_id"][i], cols["class"][i] = p["tomo"], p["sid"], p["cls"]
-        df = motlutil.df_from_cols(cols)
+        df = motlutil.vary_index(motlutil.df_from_cols(cols), variant)
         comp = np.array([[p["pos"][k] + p["shift"][k] for k in range(3)] for p in case["parts"]])
         Rp = [geo.zxz_matrix(*p["ang"]) for p in case["parts"]]
         ctx.ran(case)
@@ -584,7 +610,7 @@ def run_float(ctx, cases, name="resid"):
                 "rlnClassNumber": [r["cls"] for r in rin]}
         for k, cn in enumerate(origin_names(v)):
             data[cn] = [r["origin"][k] for r in rin]
-        imp, err = core.call_guarded(api_import, pd.DataFrame(data), v, px, variant // 2)
+        imp, err = core.call_guarded(api_import, motlutil.vary_index(pd.DataFrame(data), variant // 3), v, px, variant // 2)
         if err is not None:
             ctx.fail("call_raises", "import: %s" % err, case, dict(sig, op="import"))
             continue
@@ -639,7 +665,14 @@ def run_float(ctx, cases, name="resid"):
 
 
 def replay(ctx, case):
-    if case["kind"] == "tr":
+    if case["kind"] == "pair":
+        r = Runner(ctx)
+        r.run_case(case["first"], do_file=False)
+        r.run_case(case["second"], do_file=False)
+        r.validate("replay")
+        if ctx.states == 0:
+            ctx.tlc("MC_RelionConv", cfg(["INIT QuickInit", "NEXT Next"], emit=False), name="l1")
+    elif case["kind"] == "tr":
         r = Runner(ctx)
         r.run_case(case, do_file=case["op"] == "export")
         r.validate("replay")
